@@ -293,6 +293,34 @@ func c09(r *core.Report) {
 				}
 			}
 			r.Check(okS, "C09-OVERHEAD", core.FnName(mfn), p.Pos(mfn.Pos()), "MTU() = inner.MTU() - p2pke.Overhead", "p2pkeswarm's MTU() does not subtract p2pke.Overhead from the inner MTU")
+			// and on EVERY return path the reported value leaves room for the overhead: ret <= inner - Overhead
+			// (difference-bound prover; a non-positive MTU is accepted as "nothing fits")
+			if ov != nil {
+				v, _ := constant.Int64Val(ov.Val())
+				var inner *ssa.Call
+				for _, in := range core.AllInstrs(mfn) {
+					if cc, ok := in.(*ssa.Call); ok && cc.Call.IsInvoke() && cc.Call.Method.Name() == "MTU" {
+						inner = cc
+					}
+				}
+				bd := core.NewBounds(p)
+				bd.MinFuncs = map[*ssa.Function]string{}
+				if mf := p.Func("s/p2pkeswarm", "min"); mf != nil {
+					bd.MinFuncs[mf] = "audited contract: returns the smallest of its variadic arguments"
+				}
+				okAll := inner != nil
+				for _, ret := range core.Returns(mfn) {
+					for _, rv := range core.ReturnValues(ret, 0) {
+						if inner == nil {
+							break
+						}
+						if !bd.ProveDiffAtMost(ret, rv, inner, -v) && !bd.ProveAtMost(ret, rv, 0) {
+							okAll = false
+						}
+					}
+				}
+				r.Check(okAll, "C09-OVERHEAD", core.FnName(mfn)+" every return leaves room", p.Pos(mfn.Pos()), fmt.Sprintf("every value MTU() can return is at most inner.MTU() - %d (or not positive)", v), fmt.Sprintf("some path of MTU() returns more than inner.MTU() - %d: a payload within MTU() is encrypted to more bytes than the transport beneath accepts, the transport refuses it and the message is lost although Tell reported success", v))
+			}
 		}
 	}
 	// mbapp: HeaderSize is both the prepended array length and the subtrahend of partSize
